@@ -165,7 +165,7 @@ type c16Machine struct {
 	insts                               []*c16Inst
 	trace                               []string
 	failedReg, mutated, readAfterMutate bool
-	nested                              bool
+	nested, faulty                      bool
 }
 
 func (mc *c16Machine) log(f string, a ...any) { mc.trace = append(mc.trace, fmt.Sprintf(f, a...)) }
@@ -221,7 +221,7 @@ func (mc *c16Machine) checkConflicts(t *rapid.T, reps int) {
 	docs := []pair{{"psa-profile", P1Name, "eat-profile", P2Name}}
 	for _, n := range c16DynNames {
 		switch mc.reg[n] {
-		case "ext-p2", "two-embedded-p2":
+		case "ext-p2", "two-embedded-p2", "label-then-p2":
 			docs = append(docs, pair{"eat-profile", n, "psa-profile", P1Name})
 		case "ext-p1":
 			docs = append(docs, pair{"psa-profile", n, "eat-profile", P2Name})
@@ -403,7 +403,7 @@ func c16Run(t *rapid.T, st *Stats) {
 	steps := rapid.IntRange(1, 30).Draw(t, "steps")
 	salt := byte(0)
 	for i := 0; i < steps; i++ {
-		switch rapid.SampledFrom([]string{"register-new", "register-new", "register-nested", "register-existing", "register-bad-shape", "new", "new", "decode", "decode", "mutate", "mutate", "probe"}).Draw(t, "op") {
+		switch rapid.SampledFrom([]string{"register-new", "register-new", "register-nested", "register-faulty-factory", "register-existing", "register-bad-shape", "new", "new", "decode", "decode", "mutate", "mutate", "probe"}).Draw(t, "op") {
 		case "register-new":
 			var free []string
 			for _, n := range c16DynNames {
@@ -415,7 +415,7 @@ func c16Run(t *rapid.T, st *Stats) {
 				continue
 			}
 			name := rapid.SampledFrom(free).Draw(t, "name")
-			shape := rapid.SampledFrom([]string{"ext-p2", "ext-p1", "own-tag", "two-embedded-p2"}).Draw(t, "shape")
+			shape := rapid.SampledFrom([]string{"ext-p2", "ext-p1", "own-tag", "two-embedded-p2", "label-then-p2"}).Draw(t, "shape")
 			kind := rapid.IntRange(0, 3).Draw(t, "profile.kind")
 			mc.log("Register(%s as %s, %T)", name[len(name)-5:], shape, c16Profile(name, shape, kind))
 			if err, pmsg := c16Register(c16Profile(name, shape, kind)); err != nil || pmsg != "" {
@@ -450,6 +450,22 @@ func c16Run(t *rapid.T, st *Stats) {
 			mc.regKind[outer], mc.regKind[inner] = 0, 0
 			mc.nested = true
 			mc.checkAll(t)
+		case "register-faulty-factory":
+			// a registration that fails by UNWINDING (the factory panics, or
+			// returns nil and the library trips over it): recovered by the
+			// caller, it must leave every lookup as it was, and the name free
+			name := rapid.SampledFrom(c16DynNames).Draw(t, "name")
+			mode := rapid.SampledFrom([]string{"panic", "nil"}).Draw(t, "mode")
+			mc.log("Register(%s with a factory that %ss)", name[len(name)-5:], mode)
+			err, pmsg := c16Register(faultyFactoryProfile{name, mode})
+			if err == nil && pmsg == "" {
+				if _, already := mc.reg[name]; !already {
+					mc.fail(t, "registering a profile whose factory %ss succeeded", mode)
+				}
+			}
+			mc.failedReg = true
+			mc.faulty = true
+			mc.checkAll(t)
 		case "register-existing":
 			pool := []string{P1Name, P2Name, ""}
 			for n := range mc.reg {
@@ -457,7 +473,7 @@ func c16Run(t *rapid.T, st *Stats) {
 			}
 			sortStrings(pool)
 			name := rapid.SampledFrom(pool).Draw(t, "name")
-			shape := rapid.SampledFrom([]string{"ext-p2", "ext-p1", "own-tag", "two-embedded-p2"}).Draw(t, "shape")
+			shape := rapid.SampledFrom([]string{"ext-p2", "ext-p1", "own-tag", "two-embedded-p2", "label-then-p2"}).Draw(t, "shape")
 			// the same kind of IProfile value as the first registration of
 			// that name used (same Go type), or another one
 			kind := rapid.IntRange(0, 3).Draw(t, "profile.kind")
@@ -553,6 +569,9 @@ func c16Run(t *rapid.T, st *Stats) {
 	if mc.nested {
 		cls = append(cls, "nested-registration")
 	}
+	if mc.faulty {
+		cls = append(cls, "faulty-factory")
+	}
 	for _, sh := range mc.reg {
 		if sh == "two-embedded-p2" {
 			cls = append(cls, "two-embedded-shape")
@@ -584,7 +603,7 @@ func sortStrings(s []string) {
 
 func TestC16_RegistryHistories(t *testing.T) {
 	st := NewStats("C16", "TestC16_RegistryHistories", "rapid state machine, every history starting from the pristine register (checkpoint hook), 1..30 steps over {Register(new name) as extension-of-P2 (shares eat-profile) / extension-of-P1 (shares psa-profile) / own JSON member; Register(existing name: built-in, the default entry, previously added); Register(claims type without profile field / without json tag); NewClaims(name); Decode CBOR/JSON of a token declaring name, repeated 32x; Mutate(instance k) through every setter, through every exported pointer/slice in place, through returned component objects and the container; Probe}. 0..8 extra profiles. Oracle: model register name->shape; after every registration (successful or not) the complete probe battery (NewClaims, CBOR decode, JSON decode for 12 names: type, reported profile, validity) must equal the model's expectation: unchanged for every name not registered by this step; every created/decoded instance has a deep fingerprint equal to the first one obtained the same way and is never the same object as another; after every step every untouched instance's fingerprint is unchanged; repeated JSON dispatch gives one outcome, and a document naming two different registered profiles is rejected on each of 32 calls. Non-trivial = history contains a failed registration or a mutate followed by a create/decode; distinct = history")
-	st.Require = []string{"failed-registration", "mutate-then-read", "registered=0", "registered=1", "registered=3", "nested-registration", "two-embedded-shape"}
+	st.Require = []string{"failed-registration", "mutate-then-read", "registered=0", "registered=1", "registered=3", "nested-registration", "two-embedded-shape", "faulty-factory"}
 	defer st.Flush(t)
 	registerMu.Lock()
 	defer registerMu.Unlock()
